@@ -129,6 +129,16 @@ def template_def(rng, prof):
                  T("b", [tr(["s"], None, [["pb", lit(rng.randint(1, 50))]])]),
                  T("s", [tr(["t"], fn("succeeded"))]), T("t")]
         feat = "tpl_split_routes"
+    elif k == 12:  # a failure path that only publishes (continue), beside the success path
+        tasks = [T("t1", [tr(["continue"], fn("failed"), [["err", lit("w%d" % rng.randint(0, 9))]]), tr(["t2"], fn("succeeded"))]),
+                 T("t2", [tr(["continue"], fn("failed"), [["err", lit("w%d" % rng.randint(0, 9))]]), tr(["t3"], fn("succeeded"))]),
+                 T("t3")]
+        feat = "tpl_failure_publish"
+    elif k == 13:  # the same variable published twice with values that are equal but of different type
+        va, vb = rng.choice([(True, 1), (1, True), (False, 0), (0, False)])
+        tasks = [T("t1", [tr(["t2"], None, [["flag", lit(va)]])]), T("t2", [tr(["t3"], None, [["flag", lit(vb)]])]),
+                 T("t3", input=[["f", ctx("flag")]])]
+        feat = "tpl_typed_republish"
     else:         # two publish-only transitions and a noop ending
         tasks = [T("a", [tr(["b", "c"])]), T("b", [tr(["noop"], None, [["x", lit(1)]])]),
                  T("c", [tr(["continue"], None, [["v1", fn("result")]]), tr(["continue"], None, [["v2", lit(7)]])])]
@@ -137,6 +147,11 @@ def template_def(rng, prof):
          "output": [["o1", ctx("x")]], "tasks": tasks}
     if feat == "tpl_cleanup_fail":
         d["output"].append(["o2", ctx("n")])
+    if feat == "tpl_typed_republish":
+        d["output"].append(["oflag", ctx("flag")])
+    if feat == "tpl_failure_publish":
+        d["vars"].append(["err", lit(None)])
+        d["output"].append(["oerr", ctx("err")])
     if feat == "tpl_split_routes":
         d["output"] += [["opa", ctx("pa")], ["opb", ctx("pb")]]
     if feat == "tpl_publish_race":
@@ -220,7 +235,7 @@ def gen_def(rng, prof):
                     v = "v%d" % (len(published) + 1)
                 val = rng.choice([lit(rng.randint(0, 99)), fn("result"), ctx("x"), ctx("y") if any(v[0] == "y" for v in d["vars"]) else ctx("x"),
                                   op("add", ctx("x"), lit(1)), lit("w%d" % rng.randint(0, 9)),
-                                  lit({"a": rng.randint(3, 9)}), lit(None),
+                                  lit({"a": rng.randint(3, 9)}), lit(None), lit(rng.choice([True, False, 0, 1])),
                                   lit(rng.choice(ODD)) if rng.random() < prof.p_odd_strings else lit(rng.randint(0, 9))])
                 if rng.random() < 0.15:
                     v = "d"   # a dict published over a dict (merge_dicts recurses into it)
@@ -390,6 +405,9 @@ class HistProfile(object):
         self.p_lifecycle = 0.15     # requested/scheduled before running
         self.p_odd_terminal = 0.05  # timeout / abandoned / canceled as terminal report
         self.p_item_canceling = 0.4  # an item action reports `canceling` before it stops
+        self.p_first_pending = 0.0   # `pending` as the first status of an action
+        self.p_early_resume = 0.0    # resume requested while the workflow is still pausing
+        self.p_persist_first = 0.0   # persist/restore straight after construction
         self.p_task_pause = 0.0     # action reports pending/paused then resumes
         self.max_steps = 60
         self.fixed_outcomes = False
@@ -450,6 +468,16 @@ class History(object):
             for a in o["actions"]:
                 key = (o["id"], o["route"], a["item_id"])
                 late = False
+                # an action offered again (rerun of a task whose inquiry was never answered)
+                # supersedes the parked one: the provider starts the new action
+                self.parked = [x for x in self.parked if x[0] != key]
+                if a["item_id"] is None and self.hp.p_first_pending and self.rng.random() < self.hp.p_first_pending \
+                        and not self._retrying(key):
+                    # an inquiry parked at once: `pending` is the first status the action reports
+                    self.report(key, "pending", None)
+                    self.parked.append((key, "pending"))
+                    self.started.append(key)
+                    continue
                 if a["item_id"] is None and self.rng.random() < self.hp.p_lifecycle:
                     for s in self.rng.choice([["requested"], ["scheduled"], ["requested", "scheduled"], ["delayed"]]):
                         self.report(key, s, None)
@@ -527,7 +555,10 @@ class History(object):
 
     def run(self):
         rng, hp = self.rng, self.hp
-        self.play({"op": "init", "def": self.defn, "lang": self.lang, "inputs": self.inputs, "ctx": {}})
+        init = {"op": "init", "def": self.defn, "lang": self.lang, "inputs": self.inputs, "ctx": {}}
+        if hp.p_persist_first and rng.random() < hp.p_persist_first:
+            init["persist_first"] = True
+        self.play(init)
         self.play({"op": "req", "status": "running"})
         steps = 0
         reruns = 0
@@ -554,6 +585,14 @@ class History(object):
             if hp.p_pause and rng.random() < hp.p_pause and st in ("running", "resuming"):
                 self.play({"op": "req", "status": rng.choice(["pausing", "paused"])})
                 self.requested_pause = True
+                if hp.p_early_resume and self.inflight and self.status() == "pausing" and rng.random() < hp.p_early_resume / 2:
+                    # the user changes their mind at once, while every action is still running
+                    self.play({"op": "req", "status": rng.choice(["resuming", "resuming", "running"])})
+                    self.requested_pause = False
+            elif hp.p_early_resume and st == "pausing" and self.requested_pause and not self.requested_cancel \
+                    and rng.random() < hp.p_early_resume:
+                self.play({"op": "req", "status": rng.choice(["resuming", "resuming", "running"])})
+                self.requested_pause = False
             elif hp.p_cancel and rng.random() < hp.p_cancel and st in ("running", "resuming", "pausing", "paused"):
                 self.play({"op": "req", "status": rng.choice(["canceling", "canceled"])})
                 self.requested_cancel = True
@@ -628,4 +667,8 @@ class History(object):
                 reqs.append({"task": tid, "route": int(route), "reset_items": rng.random() < 0.3})
         self.outcome = {}
         self.acc = {}
-        self.play({"op": "rerun", "reqs": reqs})
+        r = self.play({"op": "rerun", "reqs": reqs})
+        st = r.get("state") or {}
+        restaged = set((x["id"], x["route"]) for x in st.get("staged", []))
+        # an unanswered inquiry of a task the rerun staged again is superseded by the new execution
+        self.parked = [x for x in self.parked if (x[0][0], x[0][1]) not in restaged]
